@@ -76,6 +76,22 @@ pub const WEIRD_SIGS: &[&str] = &[
     "", "(", ")", "()", "()V", "(é)V", "(Lé;)Lü;", "(L漢", "(L漢)", "(L漢;", "L;", "(L;)L;", "([[[", "([)[", "(I)é", "(I)[", "(I)L", "(I)L;", "(𝒳)𝒳", "(Lé)V", "(LéI)V", "()Lé", "(Ia;)V", "([Lé;)V", ")(", "(()",
     "(II)", "(Lx;Ly)V", "(L)V", "(L);", "(LL;;)V", "([é)V",
 ];
+/// signatures that cross the JVM's own limits (255 dimensions, 255 parameters): still just strings for this API
+pub fn limit_sigs() -> Vec<String> {
+    let mut v = Vec::new();
+    for n in [255usize, 256, 257, 300, 1000, 20000] {
+        v.push(format!("({}I)V", "[".repeat(n)));
+        v.push(format!("({}La/a;)V", "[".repeat(n)));
+        v.push(format!("(){}J", "[".repeat(n)));
+        v.push(format!("(I){}Lx/Long;", "[".repeat(n)));
+        v.push(format!("({})V", "[".repeat(n)));
+        v.push(format!("({})V", "I".repeat(n)));
+        v.push(format!("({})V", "[J".repeat(n)));
+        v.push(format!("(L{};)V", "é".repeat(n)));
+    }
+    v
+}
+
 pub const WEIRD_TEXTS: &[&str] = &[
     "", "\n", "\r\n", "at ", "at )", "at a()", "at é.ü(漢:1)", "    at a.b(c:99999999999999999999999)", "at a.b(c:-1)", "Caused by: ", "Caused by: é: ü", "é: ü\n\tat é.漢(ü:1)\nCaused by: 𝒳", "a\r\nb\rc\n",
     "at .(:)", "at a.b(:0)", "at a.b(c:18446744073709551615)", "at a.b(c:18446744073709551616)", "at(", "at a)", " at a.b(c:1) ",
@@ -123,6 +139,9 @@ pub fn pipeline_opt(bytes: &[u8], key: u64, st: &mut Stats, light: bool) -> Chec
         texts.extend(sample_n(&"\\PC{0,24}", key ^ 0xd14, 3));
         sigs.extend(WEIRD_SIGS.iter().map(|s| s.to_string()));
         sigs.extend(sample_n(&"[()\\[LIVJ;/éa漢𝒳]{0,12}", key ^ 0xd15, 6));
+        if key % 512 == 0 {
+            sigs.extend(limit_sigs());
+        }
     }
     let reached = std::cell::Cell::new(false);
     let impls: [&dyn Retracer; 3] = [&m_plain, &m_params, &cache];
@@ -271,6 +290,12 @@ pub fn check_strings(c: &StringsCase, st: &mut Stats) -> Check {
         for s in &c.sigs {
             let _ = m.sig(s);
             let _ = cache.sig(s);
+        }
+        if c.texts.len() == 1 && c.sigs.len() == 1 {
+            for s in limit_sigs() {
+                let _ = m.sig(&s);
+                let _ = cache.sig(&s);
+            }
         }
         for t in &c.texts {
             let _ = proguard::StackFrame::try_parse(t.as_bytes());
